@@ -22,12 +22,12 @@ def run(ctx, out):
         "downsampling factor 1 in the model (factor > 1 is not modelled); POST_PROCESS_INTERVAL_SECONDS is set to 2 so that periodic post-processing interleaves with short races",
         "each sample is identified by the wire request that produced it (id carried in the request meta data by the harness runner)",
     ]
-    rc.model_check(out, ["RaceDriver.c07.quick.cfg", "RaceDriver.c07.q1.cfg"] if ctx.quick else ["RaceDriver.c07.quick.cfg", "RaceDriver.c07.q1.cfg", "RaceDriver.c07.thorough.cfg"], timeout=3000)
+    rc.model_check(out, ["RaceDriver.c07.quick.cfg", "RaceDriver.c07.q1.cfg"] if ctx.quick else ["RaceDriver.c07.quick.cfg", "RaceDriver.c07.q1.thorough.cfg", "RaceDriver.c07.thorough.cfg"], timeout=3000)
     jobs = []
-    beh = rc.behaviours(ctx, out, 25 if ctx.quick else 300, 100, cfg="RaceDriver.sim.cfg", seed_off=7)
+    beh = rc.behaviours(ctx, out, 60 if ctx.quick else 600, 100, cfg="RaceDriver.sim.cfg", seed_off=7)
     for i, (scn, script) in enumerate(beh):
         jobs.append({"scn": scn, "script": script, "seed": ctx.seed + i, "test_mode": True, "qmax": 100})
-    beh1 = rc.behaviours(ctx, out, 15 if ctx.quick else 200, 100, cfg="RaceDriver.sim.q1.cfg", seed_off=8)
+    beh1 = rc.behaviours(ctx, out, 40 if ctx.quick else 400, 100, cfg="RaceDriver.sim.q1.cfg", seed_off=8)
     for i, (scn, script) in enumerate(beh1):
         jobs.append({"scn": scn, "script": script, "seed": ctx.seed + 500 + i, "test_mode": False, "qmax": 1})
     scns = []
@@ -36,7 +36,7 @@ def run(ctx, out):
         if repr(scn) not in seen:
             seen.add(repr(scn))
             scns.append(scn)
-    reps = 2 if ctx.quick else 10
+    reps = 3 if ctx.quick else 12
     for i, scn in enumerate(scns):
         for k in range(reps):
             jobs.append({"scn": scn, "script": [], "seed": ctx.seed + 2000 + 17 * i + k, "test_mode": k % 2 == 1, "qmax": [100, 2, 1][k % 3]})
